@@ -48,6 +48,7 @@ func execNetworkSimplex(g *graph.DGraph, params graph.Params) {
 		e = negCutValueTreeEdge(g.Edges)
 		i++
 	}
+	verifReportExit(i, maxitr, e)
 	normalize(g)
 	switch params.NetworkSimplexBalance {
 	case 1:
